@@ -44,11 +44,16 @@ type HarnessRun struct {
 	assertsTrivial int
 	assumes        int
 	nameCount      map[string]int
+	seed           int
+	deadline       time.Time
+	lemmaCache     map[string]Result
+	simHits        int
+	sweeps         []sweepStats
 	directives     map[string][]string
 }
 
 func newHarnessRun(name string) *HarnessRun {
-	return &HarnessRun{name: name, reached: map[string]int{}, asserts: map[string]int{}, nameCount: map[string]int{}, directives: map[string][]string{}}
+	return &HarnessRun{name: name, reached: map[string]int{}, asserts: map[string]int{}, nameCount: map[string]int{}, directives: map[string][]string{}, lemmaCache: map[string]Result{}}
 }
 
 type HarnessResult struct {
@@ -124,6 +129,7 @@ var (
 	flagNoMerge = flag.Bool("nomerge", false, "disable state merging")
 	flagSmtLog  = flag.String("smtlog", "", "log SMT traffic of the (single) harness to this file")
 	flagList    = flag.Bool("list", false, "list harnesses and exit")
+	flagBudget  = flag.Int("budget", 600, "per-harness wall-clock budget (s); queries after it are inconclusive")
 )
 
 type harnessDef struct {
@@ -312,6 +318,7 @@ func runHarness(prog *ssa.Program, def harnessDef, tier int) (res *HarnessResult
 	h := newHarnessRun(def.fn.Name())
 	h.tier = tier
 	h.directives = def.directives
+	h.deadline = start.Add(time.Duration(*flagBudget) * time.Second)
 	e.h = h
 	if v := def.directives["unwind"]; len(v) > 0 {
 		f := strings.Fields(v[len(v)-1])
